@@ -20,6 +20,7 @@ mod c09cli;
 mod c10;
 mod c11;
 mod c12;
+mod c13;
 mod ir;
 mod cli;
 mod clicheck;
@@ -70,6 +71,7 @@ fn main() {
         "C10" => "C10",
         "C11" => "C11",
         "C12" => "C12",
+        "C13" => "C13",
         "C17" => "C17",
         "C20" => "C20",
         _ => usage(),
@@ -88,6 +90,7 @@ fn main() {
         "C10" => c10::run(&ctx),
         "C11" => c11::run(&ctx),
         "C12" => c12::run(&ctx),
+        "C13" => c13::run(&ctx),
         "C17" => c17::run(&ctx),
         "C20" => c20::run(&ctx),
         _ => unreachable!(),
@@ -119,6 +122,7 @@ fn replay(path: &str) -> i32 {
         "c10" => c10::replay(&v),
         "c11" | "c11-comments" => c11::replay(&v),
         "c12" => c12::replay(&v),
+        "c13" => c13::replay(&v),
         "cli" => clicheck::replay(&v),
         "c08" => c08::replay(&v),
         _ => Err(format!("unknown replay kind '{}'", kind)),
